@@ -283,7 +283,7 @@ fn namesakes(k: u64, rng: &Rng) -> (u64, String) {
     let a_first = i % 2 == 0;
     i /= 2;
     let x = names[i % names.len()];
-    let mut out = String::from(*rng.pick(&["pragma solidity 0.8.17;\n", "pragma solidity 0.7.6;\n", "pragma solidity ^0.8.4;\n\n"]));
+    let mut out = String::from(*rng.pick(&["pragma solidity 0.8.17;\n", "pragma solidity 0.7.6;\n", "pragma solidity ^0.8.4;\n\n", "pragma solidity 0.4.24;\n", "pragma solidity ^0.4.11;\n", "pragma solidity 0.6.8;\n"]));
     let (first, second) = if a_first { (d, u) } else { (u, d) };
     out.push_str(&first.replace("%X%", x));
     if k >= total && rng.chance(1, 2) {
